@@ -64,6 +64,35 @@ def run(tier, args):
             hist_info.append({"seed": h, "blocks": len(sc["tree"]), "ops": len(sc["ops"]), "durable_writes": W, "crash_points": len(jobs)})
             if len(agg.samples) < 2:
                 agg.samples.append({"seed": h, "cfg": sc["cfg"], "ops_head": sc["ops"][:20], "crash_markers_tried": [j for j in jobs[:4]]})
+        # second part: many more histories, each with a seeded SAMPLE of crash points (history diversity:
+        # reorganisations across epoch boundaries, invalid blocks, orphan-first deliveries meet a crash)
+        sampled_hist = (60 if tier == "quick" else 6000) if not args.seeds else 0
+        sampled_points = 0
+        import random
+        seeds2 = list(range(lo + 100_000, lo + 100_000 + sampled_hist))
+        scs0 = [nc.gen_scenario(PROP, h) for h in seeds2]
+        res0 = list(ex.map(nc.exec_scenario, scs0))
+        scs = []
+        for h, sc, r0 in zip(seeds2, scs0, res0):
+            agg.add(r0)
+            if r0.get("harness_error"):
+                continue
+            if r0.get("violation"):
+                failing.append((sc, r0["violation"]))
+                continue
+            W = r0["probes"].get("durable_writes", 0)
+            if W == 0:
+                continue
+            rnd = random.Random(h ^ 0x5A3)
+            jobs = [[(rnd.randint(1, W), rnd.random() < 0.5)] for _ in range(5)]
+            jobs.append([(rnd.randint(1, W), rnd.random() < 0.5), (rnd.randint(1, 12), rnd.random() < 0.5)])
+            scs.extend(with_crashes(sc, j) for j in jobs)
+        res = list(ex.map(nc.exec_scenario, scs))
+        for s2, r in zip(scs, res):
+            agg.add(r)
+            sampled_points += 1
+            if r.get("violation"):
+                failing.append((s2, r["violation"]))
     if agg.harness:
         log("harness errors:", agg.harness[:3])
         return 2
@@ -95,8 +124,8 @@ def run(tier, args):
     wall = time.time() - t0
     cov = nc.evidence_cov(agg, wall,
         "one evaluation = one execution of a seeded block-import history (6-24 blocks, forks, invalid blocks, duplicates, orphan-first deliveries) with a process death injected at one durable-write index (before or after the write) or two (second death during recovery); EVERY write index of each history is tried. After each restart: open must succeed, the store must equal the model's replay of the tip it reports, work must not decrease, stored-but-unverified blocks with a judged parent must have been picked up by InitLoadUnverified, the proposal view must match; after the remaining deliveries the tip must be the heaviest valid chain and the full state must equal the replay (= the never-crashed run when the heaviest chain is unique). distinct = hash of the executed operation/segment sequence; non-trivial = run with a reorganisation or orphan-first delivery",
-        {"histories": hist_info[:50], "crash_points_enumerated": points, "enumeration": "for every history all durable-write indexes x {before, after}; histories are sampled", "exhaustive": False})
+        {"histories": hist_info[:50], "crash_points_enumerated": points, "sampled_part": {"histories": sampled_hist, "crash_points": sampled_points, "rule": "six seeded crash markers per history (five single deaths, one double)"}, "enumeration": "for every history of the first part all durable-write indexes x {before, after}; histories are sampled; a second part trades crash-point completeness for history diversity", "exhaustive": False})
     cov["stubbed_components"] = nc.STUB + ["process death is libc::_exit at the ckb-db durable-write hook; the surviving state is whatever the OS holds"]
     write_evidence(PROP, tier, "fault_enumeration", cov, wall, unknown, ASSUMPTIONS)
-    log(f"[{PROP}] {histories} histories, {points} crash points, {len(failing)} failing, {wall:.0f}s")
+    log(f"[{PROP}] {histories} histories, {points} crash points enumerated + {sampled_hist} histories, {sampled_points} sampled crash points, {len(failing)} failing, {wall:.0f}s")
     return 1 if unknown else 0
